@@ -411,10 +411,217 @@ func cancelClient(c *hx.Client) {
 	c.Abort()
 }
 
+// c02ReloadDuringFetch: a configuration reload that renames the server's cache (so the dispatcher the
+// fetch started with is gone from the registry) arrives while a fetch with parked waiters is in flight;
+// the fetch then ends with the given outcome. Every coalesced request must still complete.
+func c02ReloadDuringFetch(r *hx.Run, w *W, idx int, oc string) {
+	uri := fmt.Sprintf("/c02reload/%d/%d", r.Seed, idx)
+	key := "GET c02.example " + uri
+	g := make(chan struct{})
+	var first atomic.Bool
+	first.Store(true)
+	w.Farm.SetScript(func(f *hx.Fetch) *hx.Reply {
+		if f.URI != uri {
+			return nil
+		}
+		if !first.CompareAndSwap(true, false) {
+			return replyOf(f, ans{Kind: "nocache"})
+		}
+		rep := replyOf(f, ans{Kind: oc, T: 2})
+		rep.Gate = g
+		return rep
+	})
+	const waiters = 3
+	cs := map[string]interface{}{"uri": uri, "outcome": oc, "waiters": waiters, "step": "cache renamed by a reload while the fetch is in flight"}
+	rq := hx.Req{Addr: w.Addr, Host: "c02.example", URI: uri, Timeout: 20 * time.Second}
+	results := make([]*hx.Result, waiters+1)
+	var wg sync.WaitGroup
+	fc := hx.NewClient(w.Clock.Now)
+	defer fc.CloseIdle()
+	wg.Add(1)
+	go func() { defer wg.Done(); results[0] = fc.Do(rq) }()
+	if !hx.WaitUntil(15*time.Second, func() bool { return w.Farm.InflightKey(key) >= 1 }) {
+		r.InconclusiveCase("C02 reload: fetcher did not reach the origin")
+		close(g)
+		wg.Wait()
+		return
+	}
+	baseReg := w.Pts.Count("get.registered")
+	for i := 1; i <= waiters; i++ {
+		wg.Add(1)
+		go func(i int) {
+			defer wg.Done()
+			q := rq
+			q.Proc = i
+			results[i] = w.Cl.Do(q)
+		}(i)
+	}
+	registered := hx.WaitUntil(15*time.Second, func() bool { return w.Pts.Count("get.registered")-baseReg >= waiters })
+	// the reload: same server, its cache under another name
+	oldName := w.Cfg.Caches[0].Name
+	newName := oldName + "r"
+	if strings.HasSuffix(oldName, "r") {
+		newName = strings.TrimSuffix(oldName, "r")
+	}
+	w.Cfg.Caches[0].Name = newName
+	for i := range w.Cfg.Servers {
+		w.Cfg.Servers[i].Cache = newName
+	}
+	done := make(chan struct{})
+	go func() { wg.Wait(); close(done) }()
+	var open sync.Once
+	err := hx.ApplyStepwise(w.Cfg, func(step string) {
+		if step == "caches" && idx%2 == 1 {
+			// the fetch ends inside the reload: the caches are those of the new configuration already, the
+			// server still names the old one
+			open.Do(func() { close(g) })
+			select {
+			case <-done:
+			case <-time.After(3 * time.Second):
+			}
+			r.Add("fetches_ending_between_cache_reset_and_server_reset", 1)
+		}
+	})
+	open.Do(func() { close(g) })
+	if err != nil {
+		r.InconclusiveCase("C02 reload: cannot apply the configuration: " + err.Error())
+		wg.Wait()
+		return
+	}
+	select {
+	case <-done:
+	case <-time.After(30 * time.Second):
+		var briefs []interface{}
+		for _, res := range results {
+			if res != nil {
+				briefs = append(briefs, res.Brief())
+			} else {
+				briefs = append(briefs, "no answer")
+			}
+		}
+		r.Violate("request_never_completed", map[string]string{"outcome": oc, "variant": "cache_renamed_during_fetch"},
+			"30 s after the fetch ended a coalesced request has not returned (the server's cache was renamed by a reload during the fetch)",
+			map[string]interface{}{"results": briefs, "goroutines": pikeGoroutines()}, cs)
+		return
+	}
+	if !registered {
+		r.InconclusiveCase("C02 reload: waiters did not register")
+		return
+	}
+	for i, res := range results {
+		if res == nil || res.Err != nil {
+			r.Violate("waiter_outcome", map[string]string{"outcome": oc, "variant": "cache_renamed_during_fetch"},
+				fmt.Sprintf("request %d ended without an HTTP answer after the reload", i), map[string]interface{}{"result": fmt.Sprint(res)}, cs)
+			return
+		}
+	}
+	r.Add("reloads_renaming_the_cache_during_a_fetch", 1)
+	r.Add("outcome_"+oc+"_with_reload", 1)
+}
+
+// c02ExpiryWhileReleasing: the completion of a cacheable fetch is busy handing the result to a waiter that
+// registered but does not receive yet; meanwhile the response expires and new requests of the key arrive (the
+// next epoch); then the held waiter proceeds. Every request of both epochs must complete.
+func c02ExpiryWhileReleasing(r *hx.Run, w *W, idx int) {
+	uri := fmt.Sprintf("/c02epoch/%d/%d", r.Seed, idx)
+	key := "GET c02.example " + uri
+	g := make(chan struct{})
+	var first atomic.Bool
+	first.Store(true)
+	w.Farm.SetScript(func(f *hx.Fetch) *hx.Reply {
+		if f.URI != uri {
+			return nil
+		}
+		rep := replyOf(f, ans{Kind: "cacheable", T: 2})
+		if first.CompareAndSwap(true, false) {
+			rep.Gate = g
+		}
+		return rep
+	})
+	nOld, nNew := 2+idx%2, 2+idx%3
+	cs := map[string]interface{}{"uri": uri, "waiters_of_the_first_epoch": nOld, "arrivals_after_expiry": nNew, "step": "expiry and new arrivals while the completion is sending to a registered waiter"}
+	rq := hx.Req{Addr: w.Addr, Host: "c02.example", URI: uri, Timeout: 20 * time.Second}
+	results := make([]*hx.Result, 1+nOld+nNew)
+	var wg sync.WaitGroup
+	do := func(i int) {
+		wg.Add(1)
+		go func() {
+			defer wg.Done()
+			c := hx.NewClient(w.Clock.Now)
+			defer c.CloseIdle()
+			q := rq
+			q.Proc = i
+			results[i] = c.Do(q)
+		}()
+	}
+	do(0)
+	if !hx.WaitUntil(15*time.Second, func() bool { return w.Farm.InflightKey(key) >= 1 }) {
+		r.InconclusiveCase("C02 epoch: fetcher did not reach the origin")
+		close(g)
+		wg.Wait()
+		return
+	}
+	baseReg := w.Pts.Count("get.registered")
+	enterBefore := w.Pts.Count("cacheable.enter")
+	hold := w.Pts.HoldNext("get.registered")
+	for i := 1; i <= nOld; i++ {
+		do(i)
+	}
+	registered := hx.WaitUntil(15*time.Second, func() bool { return w.Pts.Count("get.registered")-baseReg >= int64(nOld) })
+	close(g)
+	entered := hx.WaitUntil(15*time.Second, func() bool { return w.Pts.Count("cacheable.enter") > enterBefore })
+	held := false
+	select {
+	case <-hold.Arrived:
+		held = true
+	case <-time.After(5 * time.Second):
+	}
+	// the response expires; the next epoch's requests arrive while the old completion is still sending
+	w.Clock.Advance(4)
+	regNew := w.Pts.Count("get.registered")
+	for i := 0; i < nNew; i++ {
+		do(1 + nOld + i)
+	}
+	hx.WaitUntil(150*time.Millisecond, func() bool { return w.Pts.Count("get.registered")-regNew >= int64(nNew-1) })
+	hold.Release()
+	w.Pts.Disarm(hold)
+	done := make(chan struct{})
+	go func() { wg.Wait(); close(done) }()
+	select {
+	case <-done:
+	case <-time.After(30 * time.Second):
+		var briefs []interface{}
+		for _, res := range results {
+			if res != nil {
+				briefs = append(briefs, res.Brief())
+			} else {
+				briefs = append(briefs, "no answer")
+			}
+		}
+		hangSeen(r)
+		r.Violate("request_never_completed", map[string]string{"outcome": "cacheable", "variant": "expiry_and_new_epoch_while_releasing"},
+			"30 s after the held waiter was let go a request of the key has not returned",
+			map[string]interface{}{"results": briefs, "goroutines": pikeGoroutines()}, cs)
+		return
+	}
+	if !registered || !entered || !held {
+		r.InconclusiveCase("C02 epoch: the schedule could not be set up")
+		return
+	}
+	for i, res := range results {
+		if res == nil || res.Err != nil {
+			r.Violate("waiter_outcome", map[string]string{"outcome": "cacheable", "variant": "expiry_and_new_epoch_while_releasing"},
+				fmt.Sprintf("request %d ended without an HTTP answer", i), map[string]interface{}{"result": fmt.Sprint(res)}, cs)
+			return
+		}
+	}
+	r.Add("completions_overlapped_by_expiry_and_a_new_epoch", 1)
+}
+
 func c02(r *hx.Run) {
 	r.MaxViol = 3 // violations here usually cost a watchdog period each
 	r.Level = "fault_enumeration"
-	r.Rule = "quick: every fetch outcome {cacheable, uncacheable, 5xx, upstream protocol error, cacheable headers with an undecodable body (no response object), hang > ProxyTimeout (504), panic at the proxy hook, truncated upstream body (net/http abort panic), fetcher's client drops its connection, cacheable response announced as gzip whose bytes are no gzip stream, upstream that sends the header and half of the body and then nothing more (the proxy timeout still bounds the fetch)} x every waiter position {parked, one waiter registered but not yet receiving, the same + purge of the key, arriving after completion} x repeats (every second repeat the fetcher's own request carries Range / If-Range / If-None-Match / If-Modified-Since); thorough adds random outcome sequences of length 2-6 on one key. Verdict at quiescence on hooked entry state (status, registered waiters), on every request having returned, and on a follow-up request. Non-trivial = history in which >=1 waiter was parked; distinct = (outcome,variant,waiters) sequence."
+	r.Rule = "quick: every fetch outcome {cacheable, uncacheable, 5xx, upstream protocol error, cacheable headers with an undecodable body (no response object), hang > ProxyTimeout (504), panic at the proxy hook, truncated upstream body (net/http abort panic), fetcher's client drops its connection, cacheable response announced as gzip whose bytes are no gzip stream, upstream that sends the header and half of the body and then nothing more (the proxy timeout still bounds the fetch)} x every waiter position {parked, one waiter registered but not yet receiving, the same + purge of the key, arriving after completion} x repeats (every second repeat the fetcher's own request carries Range / If-Range / If-None-Match / If-Modified-Since); thorough adds random outcome sequences of length 2-6 on one key; directed episodes in which the response expires and 2-4 new requests of the key arrive while the completion is still handing the result to a waiter that registered but does not receive yet; six directed episodes in which a reload renames the server's cache while a fetch (uncacheable, 5xx, cacheable) with three parked waiters is in flight; in every second one the fetch ends inside the reload, after the caches were reset and before the servers were. Verdict at quiescence on hooked entry state (status, registered waiters), on every request having returned, and on a follow-up request. Non-trivial = history in which >=1 waiter was parked; distinct = (outcome,variant,waiters) sequence."
 	r.Assume = []string{"virtual clock, hook points (tag-guarded)", "ProxyTimeout 200ms so that a hanging upstream ends the fetch", "-race build"}
 	rnd := rand.New(rand.NewSource(r.Seed))
 	w := newSimpleWorld(r, hx.SimpleCfg{CacheName: "c02", CacheSize: 16, HitForPass: "2s", Timeout: "200ms"}, 1, true)
@@ -459,6 +666,17 @@ func c02(r *hx.Run) {
 		if i%50 == 0 {
 			w.Farm.Trim()
 		}
+	}
+	// directed: expiry and the next epoch's arrivals while the completion is still releasing the first epoch's waiters
+	for i := 0; i < r.Pick(6, 200) && !r.TooMany(); i++ {
+		c02ExpiryWhileReleasing(r, w, i)
+	}
+	// directed: the server's cache is renamed by a reload while a fetch with parked waiters is in flight
+	for i, oc := range []string{"nocache", "5xx", "cacheable", "nocache", "5xx", "cacheable"} {
+		if r.TooMany() {
+			break
+		}
+		c02ReloadDuringFetch(r, w, i, oc)
 	}
 	r.Set("points_hit", w.Pts.Counts())
 	checkRaceLog(r)
